@@ -41,11 +41,11 @@ var kvTokens = []string{`"`, `'`, `"\`, `\`, ``, `""`, `=`, `:`, `null`, `~`, `[
 var xmlTokens = []string{``, ` `, `0`, `-1`, `&`, `<`, `"`, `]]>`}
 
 type span struct {
-	a, b  int // [a,b) of the value
-	depth int
-	kind  byte // JSON: s n l(iteral) a o ; kv: v ; xml: t(ext) q(attribute)
+	a, b   int // [a,b) of the value
+	depth  int
+	kind   byte   // JSON: s n l(iteral) a o ; kv: v ; xml: t(ext) q(attribute)
 	key    string // JSON: member name ("" for the top value; "<name>[]" for the elements of an array member); kv: the key text
-	ma, mb int // JSON member / element incl. its separating comma, kv: the whole line, xml: the whole line of a single-line element (-1: none)
+	ma, mb int    // JSON member / element incl. its separating comma, kv: the whole line, xml: the whole line of a single-line element (-1: none)
 }
 
 // ------------------------------------------------------------------------------------------------ JSON spans
@@ -372,7 +372,7 @@ func verNeighbours(v string) []string {
 
 type sop struct {
 	name    string
-	targets func(d *sdoc) []int        // span indexes (into the operator's span list), shallow-first
+	targets func(d *sdoc) []int         // span indexes (into the operator's span list), shallow-first
 	apply   func(d *sdoc, t int) []byte // t = one of targets
 }
 
